@@ -18,28 +18,37 @@ ENTRIES = [(REL, "FSA." + m) for m in (
 
 
 def rule_even(ctx):
+    from ..norm import forward_subst
     r = ctx.r
-    r.rule("EV", "even_automaton returns automaton_multiple(2) (literal)")
+    r.rule("EV", "where even_automaton delegates to automaton_multiple, the "
+                 "multiple is 2 (after substituting straight-line locals); "
+                 "an implementation that does not delegate is not judged")
     f = ctx.p.get_function(REL, "FSA.even_automaton")
     r.analysed(f)
-    rets = [n for n in ast.walk(f.node) if isinstance(n, ast.Return)]
-    ok = (len(rets) == 1 and isinstance(rets[0].value, ast.Call)
-          and ast.unparse(rets[0].value.func) == "self.automaton_multiple"
-          and len(rets[0].value.args) + len(rets[0].value.keywords) == 1)
-    val = None
-    if ok:
-        a = (rets[0].value.args or [k.value for k in rets[0].value.keywords])[0]
-        val = a.value if isinstance(a, ast.Constant) else None
-    if ok and val == 2:
-        r.ok("EV", "even_automaton", loc(f, rets[0]), norm_stmt(rets[0]),
-             "delegates to automaton_multiple(2)")
-    else:
-        st = rets[0] if rets else f.node
-        r.violation("EV", f"{f.fq}|return", loc(f, st),
-                    norm_stmt(st)[:120],
-                    "even_automaton does not return "
-                    "self.automaton_multiple(2): the 'even' language is not "
-                    "the multiple-of-2 language", instance="even_automaton")
+    rets, _ = forward_subst(f.node)
+    calls = [c for e in rets if e is not None for c in ast.walk(e)
+             if isinstance(c, ast.Call)
+             and ast.unparse(c.func) == "self.automaton_multiple"]
+    if not calls:
+        r.note("EV", loc(f, f.node), "even_automaton",
+               "does not return self.automaton_multiple(...) (not judged)")
+        return
+    for c in calls:
+        a = (list(c.args) + [k.value for k in c.keywords
+                             if k.arg in ("multiple", None)])
+        val = a[0].value if a and isinstance(a[0], ast.Constant) else None
+        if val == 2 and len(c.args) + len(c.keywords) == 1:
+            r.ok("EV", "even_automaton", loc(f, f.node), ast.unparse(c),
+                 "delegates to automaton_multiple(2)")
+        elif isinstance(val, int) or (a and isinstance(a[0], ast.Constant)):
+            r.violation("EV", f"{f.fq}|return", loc(f, f.node),
+                        ast.unparse(c)[:120],
+                        f"even_automaton returns automaton_multiple({val!r})"
+                        ": the 'even' language is not the multiple-of-2 "
+                        "language", instance="even_automaton")
+        else:
+            r.note("EV", loc(f, f.node), ast.unparse(c)[:80],
+                   "multiple is not a literal (not judged)")
 
 
 def run(ctx):
